@@ -74,15 +74,20 @@ Theorem C40_first_obtained_passes :
 Proof. exact lookup_raw_first_obtained_passes. Qed.
 Print Assumptions C40_first_obtained_passes.
 
-(* ALL modelled criteria (host / user / final included), closed form over the config alone.
+(* ALL criteria except exec (all / canonical / final / host / originalhost / user / localuser, each possibly
+   negated, parameters being comma lists of possibly negated patterns), closed form over the config alone.
    Match host / user only look at the HostName / User options, so applicability of a block is a
    function of the config prefix: `sel` walks the blocks carrying just those two values (as set by
    the earlier applying blocks) — no option dictionary appears in the statement.  First pass from
    (None, None); a key obtained there is kept; otherwise HostName defaults to the name looked up;
    otherwise the second (final) pass, started from the first pass's HostName (or the default) and
-   User, decides.  This closes the former C40_two_pass_partial. *)
+   User, decides.  This closes the former C40_two_pass_partial for lookups without canonicalisation;
+   C40_relookup below is the same statement for both kinds of second pass, C40_canonical_plan says
+   which one lookup() runs.  Match exec is outside the closed form (the command is tokenised against
+   ALL options obtained so far); C40_two_pass_option_states and C40_pass_first_obtained cover it. *)
 Theorem C40_two_pass :
   forall e cfg host raw k,
+    forallb exec_free_block cfg = true ->
     lookup_raw e cfg host = Some raw ->
     k <> s_identityfile ->
     let sel1 := sel e host false false cfg None None in
@@ -97,6 +102,82 @@ Theorem C40_two_pass :
     end.
 Proof. exact lookup_raw_closed. Qed.
 Print Assumptions C40_two_pass.
+
+(* THE FULL STATEMENT (CanonicalizeHostname included).  lookup() = first pass under the name given,
+   HostName default, then ONE second pass `relookup e cfg host t c`:
+     c = false, t = host   plain final pass;
+     c = true              canonical re-lookup under the canonical name t: Host patterns and
+                           originalhost are matched against t, `Match canonical` passes, HostName is
+                           overwritten with t (a HostName obtained in the first pass is NOT kept), every
+                           other option obtained in the first pass is kept, and host / user criteria see
+                           HostName = t and the User of the first pass.
+   Closed form over the config alone for every key but IdentityFile (exec-free configs): *)
+Theorem C40_relookup :
+  forall e cfg host t (c : bool) k,
+    forallb exec_free_block cfg = true ->
+    k <> s_identityfile ->
+    let sel1 := sel e host false false cfg None None in
+    let h1 := if c then Some (VStr t)
+              else match sel1 s_hostname with Some h => Some h | None => Some (VStr host) end in
+    dget (relookup e cfg host t c) k =
+    if zlist_eqb k s_hostname then h1
+    else match sel1 k with
+         | Some v => Some v
+         | None => sel e t c true cfg h1 (sel1 s_user) k
+         end.
+Proof. exact relookup_closed. Qed.
+Print Assumptions C40_relookup.
+
+Theorem C40_relookup_identityfile :
+  forall e cfg host t (c : bool),
+    forallb exec_free_block cfg = true ->
+    let sel1 := sel e host false false cfg None None in
+    let h1 := if c then Some (VStr t)
+              else match sel1 s_hostname with Some h => Some h | None => Some (VStr host) end in
+    get_list (relookup e cfg host t c) s_identityfile =
+    dedup_extend [] (coll e host false false cfg None None ++ coll e t c true cfg h1 (sel1 s_user)).
+Proof. exact relookup_idf. Qed.
+Print Assumptions C40_relookup_identityfile.
+
+(* which second pass runs, and under which name: the result of lookup() is the expansion (under t) of
+   exactly one relookup *)
+Theorem C40_lookup_full_cases :
+  forall e cfg host d,
+    lookup_full e cfg host = Out d ->
+    (plan_of e cfg host = PlanPlain /\ d = expand e host (relookup e cfg host host false)) \/
+    (exists t, plan_of e cfg host = PlanCanon t /\ d = expand e t (relookup e cfg host t true)).
+Proof. exact lookup_full_cases. Qed.
+Print Assumptions C40_lookup_full_cases.
+
+(* the canonical re-lookup happens only when the FIRST pass obtained CanonicalizeHostname yes/always and
+   the name has at most CanonicalizeMaxDots (default 1) dots; its name is host.dom for the first of the
+   first pass's CanonicalDomains under which the name resolves, or the name itself when none does
+   (fallback); the decision never looks at second-pass options *)
+Theorem C40_canonical_plan :
+  forall e cfg host t,
+    plan_of e cfg host = PlanCanon t ->
+    let o1 := first_pass e cfg host in
+    canon_on o1 = true /\
+    (exists md, maxdots o1 = Some md /\ count_dots host <= md) /\
+    exists ds, dget o1 s_canonicaldomains = Some (VStr ds) /\
+      ((exists dom, In dom (split_ws ds) /\ t = host ++ 46 :: dom /\ e_resolves e t = true) \/
+       (t = host /\ forall dom, In dom (split_ws ds) -> e_resolves e (host ++ 46 :: dom) = false)).
+Proof. exact plan_canon_spec. Qed.
+Print Assumptions C40_canonical_plan.
+
+Theorem C40_plain_plan :
+  forall e cfg host,
+    plan_of e cfg host = PlanPlain ->
+    let o1 := first_pass e cfg host in
+    exists md, maxdots o1 = Some md /\ (canon_on o1 = false \/ md < count_dots host).
+Proof. exact plan_plain_spec. Qed.
+Print Assumptions C40_plain_plan.
+
+(* lookup_full extends the canonicalisation-free lookup the theorems above speak about *)
+Theorem C40_lookup_full_extends :
+  forall e cfg host d, lookup e cfg host = Some d -> lookup_full e cfg host = Out d.
+Proof. exact lookup_full_extends. Qed.
+Print Assumptions C40_lookup_full_extends.
 
 (* the earlier form of the same fact, through the model's intermediate option dictionaries
    (first_from threads the evolving options); kept because C40_two_pass is derived from it *)
@@ -143,6 +224,7 @@ Print Assumptions C40_identityfile_no_dup.
    first pass then final pass, applicability decided as in C40_two_pass *)
 Theorem C40_identityfile_accumulation :
   forall e cfg host raw,
+    forallb exec_free_block cfg = true ->
     lookup_raw e cfg host = Some raw ->
     let sel1 := sel e host false false cfg None None in
     get_list raw s_identityfile =
@@ -261,6 +343,25 @@ Example C40_example_two_pass :
               sel ex_env [97] false false ex_cfg2 None None s_port = None /\
               forallb optfree_block ex_cfg2 = false.
 Proof. eexists. split; [vm_compute; reflexivity|]. repeat split; reflexivity. Qed.
+
+(* CanonicalizeHostname yes / CanonicalDomains x.y lan ; Host a / HostName b ; Match canonical host a.lan / User c ;
+   `a.lan` resolves: looking up `a` re-looks-up as a.lan, HostName b of the first pass is overwritten *)
+Definition ex_env3 : env :=
+  Env [97;108] [98] [98] [47;104] toyhash (fun n => zlist_eqb n [97;46;108;97;110]) exec_stub.
+Definition ex_cfg3 : list block :=
+  parsed [(s_canonicalizehostname, s_yes); (s_canonicaldomains, [120;46;121;32;108;97;110])]
+    [Blk (HHost [[97]]) [(s_hostname, [98])];
+     Blk (HMatch [Crit CCanonical false []; Crit CHost false [97;46;108;97;110]]) [(s_user, [99])]].
+
+Example C40_example_canonical :
+  plan_of ex_env3 ex_cfg3 [97] = PlanCanon [97;46;108;97;110] /\
+  forallb exec_free_block ex_cfg3 = true /\
+  exists d, lookup_full ex_env3 ex_cfg3 [97] = Out d /\
+            dget d s_hostname = Some (VStr [97;46;108;97;110]) /\ dget d s_user = Some (VStr [99]).
+Proof.
+  split; [vm_compute; reflexivity|]. split; [reflexivity|].
+  eexists. split; [vm_compute; reflexivity|]. split; reflexivity.
+Qed.
 
 (* ~/.ssh/%h-%p under identityfile (where %p is not allowed) *)
 Example C40_example_tokens :
